@@ -2133,8 +2133,8 @@ func mangleDimension(value string, unit string) (string, string, bool) {
 func mangleNumber(t string) (string, bool) {
 	original := t
 
-	if dot := strings.IndexByte(t, '.'); dot != -1 {
-		// Remove trailing zeros
+	if dot := strings.IndexByte(t, '.'); dot != -1 && !strings.ContainsAny(t, "eE") {
+		// Remove trailing zeros (not of an exponent: "1.5e10" is not "1.5e1")
 		for len(t) > 0 && t[len(t)-1] == '0' {
 			t = t[:len(t)-1]
 		}
